@@ -179,6 +179,10 @@ def run(ctx: Ctx) -> None:
             for f_ in ast.walk(init):
                 if isinstance(f_, ast.FunctionDef) and f_.name == v.id and f_ is not init:
                     return ("def", f_)
+            # a function of the module
+            for f_ in mod.tree.body:
+                if isinstance(f_, ast.FunctionDef) and f_.name == v.id:
+                    return ("def", f_)
         if isinstance(v, ast.Attribute) and isinstance(v.value, ast.Name) and v.value.id in ("self", "CxxParser"):
             if v.attr in pm.methods:
                 return ("def", pm.methods[v.attr])
